@@ -56,6 +56,15 @@ func genNilPointers(g *h.G) {
 			emit(tt, v)
 		}
 	}
+	// tlb.Unary at every boundary (AUDIT2 B9: WriteUnary(n >= 2^63) wrote a single 0 and returned nil before the `fix:`)
+	if tt := tlbLookup("tlb.Unary"); tt != nil {
+		for _, n := range tlbx.UnaryBoundaries {
+			v := reflect.New(tt.T).Elem()
+			v.SetUint(n)
+			emit(tt, v)
+			g.Count("unary_boundary_values")
+		}
+	}
 	if tt := tlbLookup("tlb.MsgAddress"); tt != nil {
 		for _, st := range []string{"AddrExtern", "AddrVar"} {
 			a := tlb.MsgAddress{}
